@@ -137,15 +137,21 @@ def shrink_negative(modsim, neg, cls, wd):
 
     def build(st):
         sp, files, _ = rebuild(st)
-        if target not in sp.program.by_name or mfile not in files:
+        if mfile not in files:
             return None
-        # the reference model must still say "not visible"
-        m = sp.files.index(mfile)
-        if target in sp.visible(m):
-            return None
+        if neg["kind"] != "import":
+            if target not in sp.program.by_name:
+                return None
+            # the reference model must still say "not visible"
+            m = sp.files.index(mfile)
+            if target in sp.visible(m):
+                return None
         n2 = dict(neg)
         n2["files"] = dict(files)
-        n2["files"][mfile] = files[mfile] + "\n" + neg["probe"]
+        if neg["kind"] == "import":
+            n2["files"][mfile] = neg["import_line"] + files[mfile]
+        else:
+            n2["files"][mfile] = files[mfile] + "\n" + neg["probe"]
         names = set(files) | set(st.get("packages", []))
         n2["orders"] = [[n for n in o if n in names] for o in neg["orders"]]
         n2["structure"] = st
